@@ -91,6 +91,17 @@ from zoneinfo import ZoneInfo  # noqa: E402
 _NY = ZoneInfo('America/New_York')
 
 
+class _HostObject:
+    def method(self, args, options):
+        return None
+
+    def __call__(self, args, options):
+        return None
+
+
+_HOST_OBJECT = _HostObject()
+
+
 def comparison_pool():
     """The fixed pool for C11: several hundred values of all nine types (NaN excluded)."""
     d = datetime
@@ -111,6 +122,10 @@ def comparison_pool():
         # one zone object, wall-clock times inside the repeated hour of a change back from summer time (fold tells the two 01:30 apart)
         d.datetime(2021, 11, 7, 1, 30, tzinfo=_NY, fold=1), d.datetime(2021, 11, 7, 1, 45, tzinfo=_NY), d.datetime(2021, 11, 7, 1, 30, tzinfo=_NY),
         d.datetime(2021, 11, 7, 6, 0, tzinfo=d.timezone.utc),
+        # datetimes less than a millisecond apart (clock readings, host values carry microseconds)
+        d.datetime(2020, 1, 1, 0, 0, 0, 400), d.datetime(2020, 1, 1, 0, 0, 0, 800), d.datetime(2020, 1, 1, 0, 0, 0, 999),
+        # host functions of other Python kinds (a bound method, a built-in method, a callable object)
+        _HOST_OBJECT.method, [].append, _HOST_OBJECT,
     ]
     arrays = [[], [None], [0], [0.0], [1], [1.0], [1, 2], [1, 2.0], [2, 1], [1, 2, 3], [[1]], [[1.0]], [[]], [[], []], ['a'], ['a', 'b'], [True],
               [False], [None, None], [1, None], [None, 1], [d.date(2020, 1, 1)], [d.datetime(2020, 1, 1)], [{}], [{'a': 1}], [{'a': 1.0}],
